@@ -13,6 +13,7 @@ THEOREMS = ["C07_canonical", "C07_order", "C07_render_parse", "C07_table_shapes"
 def run(run, args):
     n = (400 if run.tier == "quick" else 6000) * run.scale
     formlib.prepare(run)
+    source_tie(run, ("render",))
     rc, out, _ = make(["model/RenderCheck.vo"])
     if rc != 0:
         violation(run, {"broken": "model files do not build", "detail": out[-3000:]}, nofail=True)
